@@ -20,6 +20,22 @@ __CPROVER_ensures(g_tl_calls == 1 && (timelimit < infty || g_tl_arg == -1.0))   
 void h_assemble(void) { int* bind; int nrows, ncols, st; double tl, inf; havoc(); w_assemble(bind, nrows, ncols, st, tl, inf); CANARY(); }
 #endif
 
+#ifdef INST_solves
+int g_solve_left, g_solve_right, g_redim, g_status_after_compute; const void* g_solve_arg; const void* g_solve_out;
+/* rows of the inverse = LEFT solve with the r-th unit vector, columns and B^-1 v = RIGHT solve; a stale or failed factorization
+ * is never used: exactly one rebuild attempt, and no solve unless the solver status is OK */
+int w_solves(int which, int nrows, int st, int k)
+__CPROVER_requires(0 <= which && which <= 2 && 0 < nrows && nrows <= CAPD && 0 <= k && k < nrows)
+__CPROVER_requires(g_solve_left == 0 && g_solve_right == 0 && g_cbir_calls == 0)
+__CPROVER_assigns(g_solve_left, g_solve_right, g_redim, g_solve_arg, g_solve_out, g_cbir_calls, g_nrows)
+__CPROVER_ensures(g_cbir_calls == (st != ST_OK))
+__CPROVER_ensures(__CPROVER_return_value == (st == ST_OK || g_status_after_compute == ST_OK))
+__CPROVER_ensures(!__CPROVER_return_value ==> (g_solve_left == 0 && g_solve_right == 0))
+__CPROVER_ensures(__CPROVER_return_value ==> (g_redim == nrows && g_solve_left == (which == 0) && g_solve_right == (which != 0)))
+;
+void h_solves(void) { int which, nrows, st, k; havoc(); g_solve_left = 0; g_solve_right = 0; g_status_after_compute = nondet_int(); w_solves(which, nrows, st, k); CANARY(); }
+#endif
+
 #ifdef INST_compute
 /* computeBasisInverseRational: no basis => cache cleared, false; stale/absent factorization => indices refreshed from the
  * solver's basis and matrix rebuilt exactly once; an OK factorization is reused untouched; true iff the solver ends up OK */
